@@ -75,6 +75,11 @@ def select_shapes(join_id):
         ('join', 'select a1, b2 join %s on a2 == b1' % join_id, {'cols': 2, 'join': True}),
         ('join', 'select * left join %s on a2 == b1' % join_id, {'cols': 2, 'join': True}),
         ('join_sorted', 'select a1, b2 join %s on a2 == b1 order by b2' % join_id, {'cols': 2, 'join': True, 'buffered': True}),
+        ('layered', 'select distinct a2 order by a2', {'cols': 2, 'buffered': True}),
+        ('layered', 'select top 2 distinct a2, a1 order by a1 desc', {'cols': 2, 'buffered': True}),
+        ('layered', 'select a2, count(*) group by a2 limit 1', {'cols': 2, 'buffered': True}),
+        ('layered', 'select distinct count a2 order by a2 limit 2', {'cols': 2, 'buffered': True}),
+        ('layered', 'select top 1 distinct a1', {'cols': 1}),
     ]
 
 
